@@ -169,88 +169,40 @@ def check_specs(P, ctx):
 
 
 def check_scan(P, ctx):
+    """scan_from_with, decided by evaluating it on concrete format strings (cv/printmodel.py eval_scan): the reader consumes for every
+    piece of the format exactly what the writer produced for it, reads every conversion into something of the width scanf stores, and
+    hands the value on unchanged"""
+    from . import printmodel
     fn = P.fn('scan_from_with')
-    g = P.cfg(fn)
     ctx.fn(fn)
     s = site(fn)
+    bad, unsup, ncase = printmodel.eval_scan(P)
+    ctx.stats['paths'] += ncase
+
+    def emit(rule, key, aspects, text):
+        msgs = [bad[a] for a in bad if any(a == x or (x.endswith(':') and a.startswith(x)) for x in aspects)]
+        if unsup and not msgs:
+            ctx.undecided(rule, key, s, 'scan_from_with leaves the evaluated fragment: ' + unsup)
+        else:
+            ctx.check(not msgs, rule, key, s, text + ' (%d format/argument combinations evaluated)' % ncase, msgs[:1] or None)
     rule = 'C15.position'
-    N = util.Norm(P, fn)
-    # %n appended to every specification
-    cat = [(n, c) for n in g.live() if n['expr'] is not None for c in ir.calls(n['expr']) if ir.callee_name(c) == 'strcat']
-    ok = len(cat) == 1 and N.canon(cat[0][1][2][0]) == ('local', 'fmt_buf') and ir.top_nocast(cat[0][1][2][1]) == ('str', '%n')
-    ffs = [(n, c) for n in g.live() if n['expr'] is not None for c in ir.calls(n['expr']) if ir.callee_name(c) == 'format_from' and len(c[2]) >= 5]
-    offv = None
-    for n, c in ffs:
-        last = ir.top_nocast(c[2][-1])
-        if last[0] == 'un' and last[1] == '&' and ir.top_nocast(last[2])[0] == 'local':
-            offv = ir.top_nocast(last[2])
-    ok = ok and offv is not None
-    nb = 0
-    for n, c in ffs:
-        last = ir.top_nocast(c[2][-1])
-        good = last == ('un', '&', offv) and N.canon(c[2][2]) == ('local', 'fmt_buf') and N.canon(c[2][0]) == ('param', 0) and N.canon(c[2][1]) == ('param', 1) and \
-            g.must_pass(n['id'], [cat[0][0]['id']]) if cat else False
-        # position advanced by the count once before the next specification
-        adds = [x for x in g.live() if x['kind'] == 'stmt' and x['expr'] is not None and N.canon(x['expr']) == ('assign', '+=', ('param', 1), ('local', offv[1]))]
-        # between this read and the next round of the scanning loop (or the return) the count is added exactly once on every path
-        # (the addition may be shared by several reads that join before it)
-        loop = g.innermost_loop_of(n['id']) or set()
-        heads = [i for i in loop if g.nodes[i]['kind'] == 'join' and g.nodes[i].get('loop')]
-        ends = heads + [g.exit]
-        addids = [x['id'] for x in adds]
-        once = not any(e in g.reach_from(n['succ'][0][0], cut_nodes=addids) for e in ends) if n['succ'] else False
-        for a in adds:
-            if a['id'] in g.reach_from(n['id'], cut_nodes=heads) and a['succ']:
-                if any(b in g.reach_from(a['succ'][0][0], cut_nodes=heads) for b in addids):
-                    once = False
-        good = good and once
-        nb += 1
-        ctx.check(good, rule, 'format_from#%d@%s' % (nb, ir.fmt(N.canon(c[2][3]))[:20]), site(fn, n['line']),
-                  'a conversion is read with the copied specification plus %n, the consumed-character count lands in the counter and is added to the position once')
-    ctx.check(ok and nb >= 6, rule, 'percent-n', s, '%n is appended to every copied specification and its counter is handed to each read')
-    # buffer: malloc(strlen(fmt)+4) leaves room for the specification, "%n" and the terminator
-    ma = [c for n in g.live() if n['expr'] is not None for c in ir.calls(n['expr']) if ir.callee_name(c) == 'malloc']
-    okb = len(ma) == 1 and (poly.from_expr(N.canon(ma[0][2][0])) - poly.Poly.atom('strlen(arg2)')).const_value() is not None and \
-        (poly.from_expr(N.canon(ma[0][2][0])) - poly.Poly.atom('strlen(arg2)')).const_value() >= 3
-    ctx.check(okb, rule, 'scratch', s, 'the scratch buffer has room for the longest specification plus "%n" and the terminator (strlen(fmt) + 3 or more)')
-    # decisions about the current specification look at the current character or at the copied specification only
-    rule = 'C15.spec-local-decisions'
-    fmtp = ('param', 'fmt', 2)
-    cur = ir.canon(('un', '*', fmtp))
-    bad = None
-    n_dec = 0
-    for n in g.live():
-        if n['kind'] != 'cond':
-            continue
-        for c in ir.calls(n['expr']):
-            if ir.callee_name(c) == 'strchr':
-                hay, needle = N.canon(c[2][0]), N.canon(c[2][1])
-                n_dec += 1
-                if hay[0] == 'str' and (needle == cur or needle in current_char_names(g, fmtp)):
-                    continue
-                if hay == ('local', 'fmt_buf'):
-                    continue
-                bad = bad or (n, ir.fmt(N.canon(c)))
-    ctx.check(bad is None, rule, 'scan_from_with', site(fn, bad[0]['line'] if bad else None),
-              'how a value is read (e.g. as float or double) depends only on the current conversion letter and on the specification copied for it, never on the rest of the caller\'s format string',
-              ['decision: %s' % bad[1]] if bad else None)
-    # float branch: `l` in the specification selects a double temporary, otherwise a float temporary
-    rule = 'C15.float-width'
-    tests = letter_tests(g, fmtp)
-    fb = [t for t in tests if t[1] <= set('fFeEgGaA') and len(t[1]) > 1]
-    ok = len(fb) == 1
-    if ok:
-        body = branch_nodes(g, fb[0][0], fb[0][2])
-        lt = [x for x in body if x['kind'] == 'cond' and any(ir.callee_name(c) == 'strchr' and ir.top_nocast(c[2][1]) == ('int', ord('l')) for c in ir.calls(x['expr']))]
-        ok = len(lt) == 1
-        if ok:
-            for pol, want in ((True, 'double'), (False, 'float')):
-                arm = branch_nodes(g, lt[0], pol)
-                tmp = [x['decl'] for x in arm if x.get('decl') and x['decl']['type'] in ('double', 'float')]
-                rd = [(x, c) for x in arm if x['expr'] is not None for c in ir.calls(x['expr']) if ir.callee_name(c) == 'format_from']
-                ok = ok and len(tmp) == 1 and tmp[0]['type'] == want and len(rd) == 1 and \
-                    ir.top_nocast(rd[0][1][2][3]) == ('un', '&', ('local', tmp[0]['name'], tmp[0]['id']))
-    ctx.check(ok, rule, 'scan_from_with', s, 'a floating conversion with the `l` modifier is read into a double, without it into a float — the temporary matches what scanf stores')
+    for key, asp, text in (
+            ('literal', ['literal'], 'literal text is matched against the input and advances the position by its length'),
+            ('percent', ['position', 'literal'], '%% is matched against the input and advances the position by the one character the writer produced for it'),
+            ('percent-n', ['spec:'], '%n is appended to every copied specification and its counter is handed to each read'),
+            ('counted-once', ['position', 'spec:'], 'the consumed-character count of every read is added to the position exactly once; the final position is returned'),
+            ('show', ['spec:$'], '%$ reads through look_from at the current position and takes the position it returns'),
+            ('string', ['spec:s'], '%s reads into the argument\'s own buffer with the copied specification'),
+            ('too-few', ['too-few'], 'one argument too few raises FormatError at that specification'),
+            ('scratch', ['scratch'], 'the scratch buffer has room for the longest specification plus "%n" and the terminator; every store lies inside it')):
+        emit(rule, key, asp, text)
+    emit('C15.spec-local-decisions', 'scan_from_with', ['width:', 'value:'],
+         'how a value is read (e.g. as float or double) depends only on the current conversion letter and on the specification copied for it, never on the rest of the caller\'s format string')
+    emit('C15.float-width', 'scan_from_with', ['width:f', 'width:F', 'width:e', 'width:E', 'width:g', 'width:G', 'width:a', 'width:A', 'value:f', 'value:e', 'value:g'],
+         'a floating conversion with the `l` modifier is read into a double, without it into a float — the temporary matches what scanf stores')
+    emit('C15.int-width', 'scan_from_with', ['width:d', 'width:i', 'width:u', 'width:o', 'width:x', 'width:X', 'value:d', 'value:i', 'value:u', 'value:o', 'value:x', 'value:X', 'width:c', 'value:c', 'width:p', 'value:p'],
+         'an integer conversion is read into an int (d, i), an unsigned int (u, o, x, X) or, with the `l` modifier, a long; %c into a char, %p into a pointer — the temporary matches what '
+         'scanf stores, and the value goes to the argument unchanged (a negative number read with %i stays negative)')
     ctx.floor('C15.position', 8)
 
 
@@ -295,6 +247,39 @@ def check_int_assign_exact(P, ctx):
                             (x[0] == 'call' and ir.callee_name(x) in ('c_float', 'Int_C_Float', 'Float_C_Float')):
                         bad = bad or 'for an Int source the value stored is `%s`: it passes through a floating-point conversion' % ir.fmt(ir.canon(ev['rhs']))[:70]
     ctx.check(bad is None and npaths > 0, rule, fn['name'], site(fn), 'assigning an Int to an Int copies the 64-bit value without a floating-point detour', [bad] if bad else None)
+    ctx.floor(rule, 1)
+
+
+FMTPOS = {'format_to': 2, 'format_to_va': 2, 'print_to_with': 2, 'scan_from_with': 2, 'format_from': 2, 'format_from_va': 2, 'sscanf': 1, 'vsscanf': 1,
+          'snprintf': 2, 'vsnprintf': 2, 'sprintf': 1, 'fprintf': 1, 'vfprintf': 1, 'printf': 0, 'vprintf': 0, 'fscanf': 1, 'vfscanf': 1,
+          'print_with': 0, 'println_with': 0, 'scan_with': 0, 'scanln_with': 0}
+
+
+def check_data_never_format(P, ctx, rule='C15.data-is-never-a-format'):
+    """text that came from an object (a String's characters, a name) reaches a formatting routine only as an argument: used as the format
+    it is interpreted again (`%%` collapses, a lone `%` consumes an argument that is not there), so what is written — or what look appends
+    for a character it has just read — is not what the object holds.  Every call of a formatting routine in the library passes a string
+    literal, the caller's own format parameter, or a local buffer (the copied specification of print_to_with / scan_from_with)."""
+    n = 0
+    for fn in P.all_functions():
+        if not fn['unit'].startswith('src/') or fn.get('body') is None:
+            continue
+        ltype = {d['id']: d.get('type', '') for s_ in ir.stmts(fn['body']) if s_['k'] == 'decl' for d in s_['decls']
+                 if d.get('init') is None or ir.top_nocast(d['init'])[0] in ('str', 'param', 'int', 'initlist') or
+                 (ir.top_nocast(d['init'])[0] == 'call' and ir.callee_name(ir.top_nocast(d['init'])) in ('malloc', 'calloc', 'realloc', 'alloca'))}
+        for c, ln in ir.all_calls(fn['body']):
+            nm = ir.callee_name(c)
+            if nm in FMTPOS and len(c[2]) > FMTPOS[nm]:
+                a = ir.top_nocast(c[2][FMTPOS[nm]])
+                n += 1
+                # (a local buffer: an array, or a pointer the function allocated for the copied specification)
+                ok = a[0] in ('str', 'param') or (a[0] == 'local' and len(a) > 2 and a[2] in ltype and not any(
+                    x[0] == 'assign' and ir.top_nocast(x[2]) == a and ir.top_nocast(x[3])[0] == 'call' and ir.callee_name(ir.top_nocast(x[3])) not in ('malloc', 'calloc', 'realloc', 'alloca')
+                    for e_, _l in ir.all_exprs(fn['body']) for x in ir.walk(e_)))
+                if not ok:
+                    ctx.fn(fn)
+                    ctx.refuted(rule, '%s:%s' % (fn['name'], nm), site(fn, ln), 'the format handed to %s is `%s`: data, not a literal, the caller\'s format or a copied specification' % (nm, ir.fmt(a)[:60]))
+    ctx.check(n >= 60, rule, 'formatting-calls', 'src/', '%d calls of formatting routines pass a literal, the caller\'s own format parameter or a local specification buffer' % n)
     ctx.floor(rule, 1)
 
 
@@ -351,6 +336,7 @@ def run(ctx, load):
         if k[0].startswith('C14.'):
             ctx.floors.pop(k)
     ctx.floor('C15.sink-keeps-all', 2)
+    check_data_never_format(P, ctx)
 
 
 EXPLANATION = (
